@@ -642,6 +642,40 @@ func c08Root(w *W, st ref.Stamp, full bool) {
 	if h := HolidayUtil.GetHolidayByYmd(st.Y, st.M, st.D); h != nil {
 		wrap("Holiday", func() { cw.reset(); cw.walk(reflect.ValueOf(h), 0) })
 	}
+	// order independence: each accessor asked first on a fresh object answers as on the fully used one (a third of the roots)
+	if full || (st.D+st.H+st.Mi)%3 == 0 {
+		first := func(what string, mk func() interface{}) {
+			wrap("first-call "+what, func() {
+				for _, d := range firstCallDiffs(mk) {
+					w.Violate("stable", "first-call/"+what+"/"+strings.SplitN(d, " ", 2)[0], fmt.Sprintf("%s at %s: %s", what, key, d), map[string]string{"root": key})
+				}
+				w.Eval(1)
+			})
+		}
+		first("Solar", func() interface{} { return solarOf(st) })
+		first("Lunar", func() interface{} { return solarOf(st).GetLunar() })
+		first("EightChar", func() interface{} { return solarOf(st).GetLunar().GetEightChar() })
+		first("LunarTime", func() interface{} { return solarOf(st).GetLunar().GetTime() })
+		first("Tao", func() interface{} { return solarOf(st).GetLunar().GetTao() })
+		first("Foto", func() interface{} { return solarOf(st).GetLunar().GetFoto() })
+		first("Yun", func() interface{} { return solarOf(st).GetLunar().GetEightChar().GetYunBySect(st.S%2, 1+st.Mi%2) })
+		first("DaYun", func() interface{} {
+			return solarOf(st).GetLunar().GetEightChar().GetYunBySect(st.S%2, 1+st.Mi%2).GetDaYun()[1+st.D%8]
+		})
+		first("SolarWeek", func() interface{} { return calendar.NewSolarWeekFromYmd(st.Y, st.M, st.D, st.D%7) })
+		first("SolarMonth", func() interface{} { return calendar.NewSolarMonthFromYm(st.Y, st.M) })
+		first("LunarMonth", func() interface{} {
+			l := solarOf(st).GetLunar()
+			calendar.VerifResetCache()
+			return calendar.NewLunarMonthFromYm(l.GetYear(), l.GetMonth())
+		})
+		first("LunarYear", func() interface{} {
+			l := solarOf(st).GetLunar()
+			calendar.VerifResetCache()
+			return calendar.NewLunarYear(l.GetYear())
+		})
+		w.Count("first-call-order-checks", 1)
+	}
 	w.Eval(cw.calls)
 	w.Count("accessor-calls", cw.calls)
 	w.Count("root-moments", 1)
